@@ -14,7 +14,7 @@ seeds = []
 if mode == "seeded":
     subprocess.run([exe, "--out", root + "/emit", "--emit-corpus", root + "/seeds"], env=env, stdout=subprocess.DEVNULL, stderr=subprocess.DEVNULL)
     seeds = [root + "/seeds"]
-cmd = [fz, "-fork=16", "-ignore_crashes=1", "-ignore_timeouts=1", "-ignore_ooms=1", "-max_total_time=%d" % secs, "-max_len=65536", "-timeout=25", "-rss_limit_mb=3000",
+cmd = [fz, "-fork=%s" % os.environ.get("FUZZ_FORK", "16"), "-ignore_crashes=1", "-ignore_timeouts=1", "-ignore_ooms=1", "-max_total_time=%d" % secs, "-max_len=65536", "-timeout=25", "-rss_limit_mb=3000",
        "-artifact_prefix=" + root + "/art/", root + "/corpus"] + seeds
 subprocess.run(cmd, stdout=open(root + "/fuzz.log", "w"), stderr=subprocess.STDOUT, env=env, cwd=root)
 print(re.findall(r"#\d+: cov: \d+ ft: \d+ corp: \d+[^\n]*", open(root + "/fuzz.log", errors="replace").read())[-1:])
